@@ -60,6 +60,7 @@ type World struct {
 	inoAt     map[string]uint64 // identity of the object each known handle was obtained for
 	peer      *Peer             // ViaConn: the one connection all requests travel on
 	handleBad []string          // handles that did not resolve to the path they were handed out for
+	realClock bool              // the server runs on real time: calls do not switch the virtual clock (back) on
 	keepStale bool              // keep using handles whose object was replaced (default: re-LOOKUP like a client after ESTALE)
 	trace     []string          // the run as driver lines for the Lean server model ("srv ...")
 	traceWant []string          // what the model must answer to each line
@@ -138,7 +139,9 @@ func (w *World) traceDump() { w.tr("srv dump", w.fs.DumpHex()) }
 
 // callRaw sends one call at the current virtual time and records it for the model.
 func (w *World) callRaw(prog, vers, proc uint32, cred Cred, args []byte) Reply {
-	absnfs.VerifSetClock(w.clockNs)
+	if !w.realClock {
+		absnfs.VerifSetClock(w.clockNs)
+	}
 	plain := (cred.Raw == nil && (cred.Flavor == 1 || cred.Flavor == 0)) || (cred.Flavor == 0 && len(cred.Raw) == 0)
 	if !plain && !w.noTrace {
 		w.flushTrace() // what was recorded so far is still a complete run
